@@ -254,8 +254,9 @@ def execute(ctx, scs):
         metas.append(m)
         pf = [dict(path="c%d.patch" % (k + 1), content=c) for k, c in enumerate(changes)] + [dict(path="c0.patch", content=C0)]
         base = [dict(path=TARGET, content=src), dict(path="all.patch", content=allp),
-                dict(path="list.txt", content=("c0.patch\n" if sc["copied"] else "") + "".join("c%d.patch\n" % (k + 1) for k in range(len(changes)))),
-                dict(path="rest.txt", content="".join("c%d.patch\n" % (k + 1) for k in range(1, len(changes))))] + pf
+                # (the last line of a patch list may or may not be terminated)
+                dict(path="list.txt", content="\n".join((["c0.patch"] if sc["copied"] else []) + ["c%d.patch" % (k + 1) for k in range(len(changes))]) + ctx.rng.choice(["\n", ""])),
+                dict(path="rest.txt", content="\n".join("c%d.patch" % (k + 1) for k in range(1, len(changes))) + ctx.rng.choice(["\n", "", "\n\n"]))] + pf
         cli.append(scenario(sid + "|one", base, ["-p", "all.patch", TARGET]))
         cli.append(scenario(sid + "|each", base, p0 + sum((["-p", "c%d.patch" % (k + 1)] for k in range(len(changes))), []) + [TARGET]))
         cli.append(scenario(sid + "|list", base, ["-P", "list.txt", TARGET]))
